@@ -611,11 +611,16 @@ def check_f1(spec, data, canon, flags):
     if out:
         return out
     F = lambda kind, detail, oracle="F1": out.append(oracles.V(oracle, kind, -1, 0, detail))
+    if getattr(canon, "coarse", False):
+        return out
     return _check_f1_extras(spec, data, canon, flags, m, obs, out, F)
 
 
 def compare_model_trace(m_events, m_terminal, m_taint, canon, data, flags, oracle):
-    """generic comparison of a model's k-tagged event list with the observed canonical trace"""
+    """generic comparison of a model's k-tagged event list with the observed canonical trace.
+    If canon.coarse is set the trace comes from a whole-buffer schedule (used when the one-byte
+    schedule could not be completed): which byte was in flight is then unknown, so only order,
+    identity, outputs and pointer positions are compared."""
     out = []
     indirect = flags["INDIRECT_START_PTR"]
     obs = observed_events(canon)
@@ -629,10 +634,10 @@ def compare_model_trace(m_events, m_terminal, m_taint, canon, data, flags, oracl
         mev.append({"kind": "term", "name": m_terminal[0], "k": m_terminal[1], "snap": None, "opt": False, "taint": m_taint})
     j = 0
     F = lambda kind, detail, oracle=oracle: out.append(oracles.V(oracle, kind, -1, 0, detail))
-    return _compare_rest(out, obs, mev, j, F, indirect, consumed, data), obs
+    return _compare_rest(out, obs, mev, j, F, indirect, consumed, data, getattr(canon, "coarse", False)), obs
 
 
-def _compare_rest(out, obs, mev, j, F, indirect, consumed, data):
+def _compare_rest(out, obs, mev, j, F, indirect, consumed, data, coarse=False):
     for o in obs:
         # skip optional model events that do not match
         while j < len(mev) and mev[j]["opt"] and not (mev[j]["kind"] == o["kind"] and mev[j]["name"] == o["name"]):
@@ -647,7 +652,7 @@ def _compare_rest(out, obs, mev, j, F, indirect, consumed, data):
                 o["kind"], o["name"], o["byte"], e["kind"], e["name"], e["k"], _mev(mev)))
             return out
         # an event cannot happen before the bytes that precede it in the program were consumed
-        if o["byte"] < e["k"] - 1 and o["kind"] != "term":
+        if not coarse and o["byte"] < e["k"] - 1 and o["kind"] != "term":
             F("event-too-early", "%s %s fired while byte %d was in flight, the program reaches it after %d bytes" % (o["kind"], o["name"], o["byte"], e["k"]))
             return out
         if o["kind"] == "hook" and not e["taint"] and o["snap"] != e["snap"]:
@@ -665,11 +670,11 @@ def _compare_rest(out, obs, mev, j, F, indirect, consumed, data):
                 if indirect and o["pos"] != k:
                     F("fail-pointer", "FAIL left the start pointer at %d, the first offending byte is %d" % (o["pos"], k))
                     return out
-                if o["byte"] != k:
+                if not coarse and o["byte"] != k:
                     F("fail-timing", "FAIL returned while byte %d was in flight, the offending byte is %d" % (o["byte"], k))
                     return out
             else:
-                if o["byte"] not in (k - 1, k):
+                if not coarse and o["byte"] not in (k - 1, k):
                     F("terminal-timing", "%s returned while byte %d was in flight, the program finishes after %d bytes" % (o["name"], o["byte"], k))
                     return out
         j += 1
@@ -976,8 +981,22 @@ F3_ANY = [("/./", "wild"), ("/[^x]/", "inv"), ("/\\W/", "W"), ("/\\D/", "D"), ("
 
 def gen_f3(rng):
     r = rng
-    shape = r.choice(("records", "sep", "endelse", "tryend", "tryend", "waitend", "waitend", "endopt", "endopt", "yieldend", "yieldend"))
+    shape = r.choice(("records", "sep", "endelse", "tryend", "tryend", "waitend", "waitend", "endopt", "endopt", "yieldend", "yieldend",
+                      "trytail", "trytail"))
     spec = {"family": "F3", "shape": shape}
+    if shape == "trytail":
+        # a try block as the last statement whose body can stop early, with an action-only handler:
+        # end() in the accept state inside the try must say DONE, not run the handler
+        pre = [r.choice(LET)]
+        a = [r.choice(LET), r.choice(DIG)]
+        spec["pre"], spec["a"] = pre, a
+        spec["tailkind"] = r.choice(("optional", "plus"))
+        body = ('%s; optional { "#"; }' % esc(a)) if spec["tailkind"] == "optional" else ('%s; /\\d+/;' % esc(a))
+        L = ["out int{size 2} k = 0;", "finishcode BAD;", "", "parser {", "    %s;" % esc(pre), "    try {", "        " + body, "    }",
+             "    catch (nomatch) {", "        k = 1;", "        finish BAD;", "    }", "}"]
+        spec["source"] = "\n".join(L) + "\n"
+        spec["need"] = ["-feof-support"]
+        return spec
     if shape == "yieldend":
         # a yield immediately followed by `wait end` or by a wildcard: end() right after the yield code
         lit = [r.choice(LET)] + [r.choice(LET) for _ in range(r.choice((0, 1, 2)))]
@@ -1036,6 +1055,10 @@ def gen_f3(rng):
 
 def f3_inputs(rng, spec, count):
     res = []
+    if spec["shape"] == "trytail":
+        p_, a_ = bytes(spec["pre"]), bytes(spec["a"])
+        t = b"#" if spec["tailkind"] == "optional" else b"42"
+        return [p_ + a_, p_ + a_ + t, p_ + a_ + t[:1], p_ + a_[:1], p_, p_ + a_ + b"z", b""]
     if spec["shape"] == "yieldend":
         lit = bytes(spec["lit"])
         return [lit, lit + b"q", lit + b"qq", lit[:-1], b"", lit + b"\xff"]
@@ -1109,6 +1132,16 @@ def check_f3(spec, data, canon, flags):
         code = group[-1].code
         hooks = [e[0] for c in group for e in c.events]
         snap = group[-1].snap
+        if spec["shape"] == "trytail":
+            p_, a_ = bytes(spec["pre"]), bytes(spec["a"])
+            kval = [x.split("=")[1] for x in snap.split(";") if x.startswith("k=")]
+            kval = int(kval[0]) if kval else None
+            done_points = [p_ + a_, p_ + a_ + b"#"] if spec["tailkind"] == "optional" else [p_ + a_ + b"4", p_ + a_ + b"42"]
+            if pre in done_points:
+                if code != "DONE" or kval != 0:
+                    F("end-in-accept-state-inside-try", "end() after %s (the try body may stop here): code %s k=%s (expected DONE, k=0)" % (pre.hex(), code, kval))
+                    return out
+            continue
         if spec["shape"] == "yieldend":
             lit = bytes(spec["lit"])
             nval = [x.split("=")[1] for x in snap.split(";") if x.startswith("n=")]
@@ -1454,7 +1487,7 @@ def check_f6(spec, data, canon, flags):
         stored.append(b)
         pos += 1
     out, obs = compare_model_trace(ev, terminal, False, canon, data, flags, "F6")
-    if out:
+    if out or getattr(canon, "coarse", False):
         return out
     # the outputs after every consumed byte: length counter == bytes stored, contents intact
     exp = bytearray()
